@@ -19,6 +19,7 @@ mod c14;
 mod c15;
 mod c03;
 mod c16;
+mod c18;
 mod c19;
 mod c20;
 mod gen;
@@ -51,6 +52,7 @@ fn main() {
         "c03-record" => c03::record(rest),
         "c03-replay" => c03::replay(rest),
         "c03-single" => c03::single(rest),
+        "c18-run" => c18::run(rest),
         "c19-world" => c19::world(rest),
         "c19-lib" => c19::lib(rest),
         "c16-run" => c16::run(rest),
